@@ -5,7 +5,7 @@
    Proof scripts: Proofs/IoProofs.v, Proofs/IoTrace.v, Proofs/IoMulti.v, Proofs/IoTrunc.v. *)
 From Coq Require Import ZArith List Bool.
 From LZ4V Require Import Spec.BlockSpec Spec.FrameSpec Gen.Consts Model.Io.
-From LZ4V Require Import Proofs.IoSpecFacts Proofs.IoProofs Proofs.IoTrace Proofs.IoMulti Proofs.IoConcat Proofs.IoTrunc.
+From LZ4V Require Import Proofs.IoSpecFacts Proofs.IoProofs Proofs.IoTrace Proofs.IoMulti Proofs.IoConcat Proofs.IoTrunc Proofs.IoSeek.
 Import ListNotations.
 Local Open Scope Z_scope.
 
@@ -23,6 +23,13 @@ Theorem C14_exit0_sound : forall bd mt test seekable rm fl input,
   exists c, stream_decode bd false (S (length input)) [] [] input = Some c /\ (test = false -> o_out o = c).
 Proof. exact exit0_sound. Qed.
 Print Assumptions C14_exit0_sound.
+
+(* the exception of C14_exit0_sound can only arise on seekable input: on a pipe [o_pasteof] is always false,
+   so there exit 0 ALWAYS certifies a valid stream and its exact decoding *)
+Theorem C14_pipe_no_exception : forall fdec bdec mt test pt rm fl input,
+  o_pasteof (decompress_file fdec bdec mt test pt false rm fl input) = false.
+Proof. exact pipe_no_pasteof. Qed.
+Print Assumptions C14_pipe_no_exception.
 
 (* in EVERY prefix of the trace (= every crash point): a remove(src) event is the last event, preceded by all
    reads/writes, the close of the source and the SUCCESSFUL close of the destination; it only occurs with --rm and
